@@ -48,5 +48,8 @@ mod record;
 mod prelude;
 pub use prelude::*;
 
+#[cfg(feature = "verif")]
+pub mod verif;
+
 #[cfg(any(test, feature = "test_utils"))]
 pub mod test_utils;
